@@ -92,6 +92,8 @@ type Call struct {
 	CancelAt  int  // phase of the cancellation
 	Deadline  time.Duration
 	Extra     any
+	// ReleaseAtOnce: the application is done with the response the moment it gets it (no hold)
+	ReleaseAtOnce bool
 }
 
 func (c *Call) Done() bool { c.mu.Lock(); defer c.mu.Unlock(); return c.done }
@@ -131,11 +133,13 @@ func (e *Env) Start(c *Call, f func(ctx context.Context) (*pool.Message, error),
 		resp, err := f(c.Ctx)
 		var ri *RespInfo
 		if resp != nil {
-			if e.Pool.Enabled {
+			if e.Pool.Enabled && !c.ReleaseAtOnce {
 				e.Pool.Hold(resp, "response of "+c.Name)
 			}
 			ri = Snapshot(resp)
-			if e.Pool.Enabled {
+			if e.Pool.Enabled && c.ReleaseAtOnce {
+				e.Pool.CheckHandover(ri, "response of "+c.Name)
+			} else if e.Pool.Enabled {
 				// the application keeps the response for two more phases before it releases it
 				e.Pool.CheckHandover(ri, "response of "+c.Name)
 				<-e.NextPhase()
